@@ -136,6 +136,10 @@ def run(res):
     from .. import rpucases as RC
     r = C.rng(res.seed, "c13-seam")
     seam = seam_rpus(res, r)
+    # the same RPUs followed by zero bytes (kept by the parser as trailing zeros and written back): 3 and more need an
+    # escape behind the 0x80 terminator
+    seam_tz = [(key + " +%d zeros" % k, raw + b"\x00" * k) for key, raw in (seam[:12] + [(k_, v.rstrip(b"\x00")) for k_, v in RC.asset_cases() if k_.startswith(("profile8", "fel", "mel", "cmv40_full"))][:6]) for k in (1, 2, 3, 4, 7)]
+    seam = seam + seam_tz
     kinds = {}
     lines_w = ["rt rpu nal " + (RC.SC4 + raw).hex() for key, raw in seam]
     mw = C.run_sharded(C.model, lines_w)
@@ -166,7 +170,7 @@ def run(res):
         else:
             outd = w.read("out.bin") or b""
             got = [x for x in R.read_rpu_file_raw(w.path("out.bin"))]
-            if got != [raw for key, raw in seam]:
+            if [g.rstrip(b"\x00") for g in got] != [raw.rstrip(b"\x00") for key, raw in seam]:
                 res.violation("RPU file written by the editor: %d entries read back for %d written, or their bytes differ (start code emulation inside an entry)" % (len(got), len(seam)), rp)
             elif outd != b"".join(b"\x00\x00\x00\x01" + R.escape(raw) for key, raw in seam):
                 res.violation("RPU file written by the editor is not the canonical escaping of its entries", rp)
@@ -174,7 +178,7 @@ def run(res):
         "nal_writer_cases": len(seam), "nal_writer_kinds": kinds,
         "evaluations": len(lines_e) + len(lines_u) + 2 * len(seam),
         "distinct_nontrivial": nontriv,
-        "rule": "all strings of length <= %d over {00,01,02,03,04,FF} behind 0x19 (exhaustive), 00 00 0x triples at every position 0..39 of 48-byte payloads, random zero-rich payloads; the call sites: valid RPUs steered (by a CRC search over the bytes before the CRC) to need an escape at / across the seam between data and CRC-32 or inside the CRC, written by write_hevc_unspec62_nalu (against Rpu.v and the reference escaper) and into an RPU file by `editor {}`; non-trivial = escaping changes the string (distinct inputs by construction)" % maxlen,
+        "rule": "all strings of length <= %d over {00,01,02,03,04,FF} behind 0x19 (exhaustive), 00 00 0x triples at every position 0..39 of 48-byte payloads, random zero-rich payloads; the call sites: valid RPUs steered (by a CRC search over the bytes before the CRC) to need an escape at / across the seam between data and CRC-32 or inside the CRC, and RPUs followed by 1..7 zero bytes, written by write_hevc_unspec62_nalu (against Rpu.v and the reference escaper) and into an RPU file by `editor {}`; non-trivial = escaping changes the string (distinct inputs by construction)" % maxlen,
         "exhaustive": True,
         "exhaustive_space": "strings of length <= %d over a 6-byte alphabet: %d cases" % (maxlen, len(cases)),
         "disagreements": nd,
